@@ -19,7 +19,7 @@ impl Prop for C02 {
         "C02"
     }
     fn rule(&self) -> &'static str {
-        "G-doc (all knobs) + byte mutation, widths 1..120, configs without allow_width_overflow/no_link_wrapping; non-trivial = renders Ok with >= 2 lines; distinct by (bytes, config, width)"
+        "G-doc (all knobs) + byte mutation, widths 1..120, + tables (alone, in a list item, in a quote) at their natural width minus 0..7, configs without allow_width_overflow/no_link_wrapping; non-trivial = renders Ok with >= 2 lines; distinct by (bytes, config, width)"
     }
     fn cases(&self, r: &mut R, tier: Tier) -> Vec<Case> {
         let n = scale(tier, 2500, 40000);
@@ -57,6 +57,35 @@ impl Prop for C02 {
                 }
                 let w = if r.p(60) { 1 + r.u(16) } else { 1 + r.u(120) };
                 v.push(case(bytes.clone(), cfg, w, if foot { "footnotes" } else if i % 6 == 5 { "g-mut" } else { "g-doc" }));
+            }
+        }
+        // tables at and just below their natural width: the window in which the columns fit as they are but their
+        // separators do not (added after the seeded change C02-shrink-loop-skipped-when-content-fits was missed)
+        let nt = scale(tier, 400, 6000);
+        for _ in 0..nt {
+            let t = super::tables::gen_table(r, 3, 5, 7, true);
+            let mut html = t.html();
+            match r.b(4) {
+                0 => html = format!("<ul><li>{html}</li></ul>"),
+                1 => html = format!("<blockquote>{html}</blockquote>"),
+                _ => {}
+            }
+            let mut cfg = mk_cfg(r, false);
+            cfg.overflow = false;
+            cfg.nolinkwrap = false;
+            cfg.pad = false;
+            cfg.raw = false;
+            let nat = match crate::run(html.as_bytes(), &cfg, 250) {
+                Obs::Ok(ls) => ls.iter().map(|l| crate::obs::line_width(l)).max().unwrap_or(0),
+                _ => 0,
+            };
+            if nat == 0 || nat >= 250 {
+                continue;
+            }
+            for j in 0..8usize {
+                if nat > j {
+                    v.push(case(html.clone().into_bytes(), cfg.clone(), nat - j, "tight-table"));
+                }
             }
         }
         v
